@@ -43,6 +43,8 @@ def gen_case(rng):
     c["inj_signals"] = [dict(f_start=f, drift=0.0, level=rng.uniform(0.5, 2.0), phase=1.0)]
     if nants > 1:
         c["delays"] = [rng.randint(0, 2) for _ in range(nants)]
+    # half of the cases leave the filterbank's response estimate to the backend (made lazily, mid-stream, the first time a sub-block is requantised)
+    c["lazy_stds"] = rng.random() < 0.5
     return c
 
 
@@ -81,6 +83,7 @@ def run(ctx):
         impl.extend(part)
     for c, r in zip(cases, impl):
         small = dict((k, v) for k, v in c.items() if not k.startswith("model_"))
+        ctx.tally("response_estimate", "lazy (by the backend, mid-stream)" if c.get("lazy_stds") else "before recording")
         ncalls = max((len(v) for v in r.get("gains", {}).values()), default=0)
         ctx.count(small, nontrivial=ncalls >= 2)
         ctx.tally("bits/pols/ants", "%d/%d/%d" % (c["nbits"], c["num_pols"], c["nants"])); ctx.tally("directio", c["directio"])
